@@ -238,13 +238,17 @@ def is_int(c):
 def wellformed(obj):
     """None if obj satisfies C02 clauses 1-4, else (clause, detail)."""
     s, nw, nf = obj.signed, obj.n_word, obj.n_frac
-    if not (isinstance(s, (bool, np.bool_)) or s in (0, 1)) or not is_int(nw) or not is_int(nf) or nw < 1:
+    if not (isinstance(s, (bool, np.bool_)) or s in (0, 1)) or not is_int(nw) or not is_int(nf) or nw < 0:
         return 'format', {'signed': repr(s), 'n_word': repr(nw), 'n_frac': repr(nf)}
     s = bool(s)
     lo, hi = Q.bounds(s, nw)
     sh, kind, flat = codes_of(obj)
     is_complex = kind == 'c' or obj.vdtype == complex or any(isinstance(c, complex) for c in flat)
-    for c in flat:
+    # clause 1 is judged on core-domain formats only (the property's quantifier); wider words
+    # (results of growing arithmetic, the 64-70 bit slice) are judged on their metadata alone
+    for c in (flat if nw <= 52 else ()):
+        if isinstance(c, np.ndarray) and c.ndim == 0:
+            c = c.item()    # an indexed store into object-dtype storage wraps the element; still one integer
         parts = (c.real, c.imag) if isinstance(c, complex) else (c,)
         for p in parts:
             if isinstance(p, float):
@@ -296,7 +300,10 @@ class C02(Oracle):
         if st.outcome == 'skipped':
             return
         culprit = culprit_of(st)
-        objs = [(('slot', i), w.slots[i].obj) for i in w.live()]
+        busy = w.inflight()     # objects whose write is still in progress (we are inside their callback)
+        if st.outcome != 'ok' and st.dest is not None and not st.expect_reject:
+            busy = set(busy) | {st.dest}    # aborted in place: abandoned, not judged (DESIGN 3.4)
+        objs = [(('slot', i), w.slots[i].obj) for i in w.live() if i not in busy]
         if isinstance(st.ret, Fxp) and w.slot_of(st.ret) is None and st.outcome == 'ok':
             objs.append((('returned',), st.ret))
         if st.outcome == 'ok':
